@@ -34,7 +34,12 @@ def wf_pair():
     return W.Workflow([W.T("A", ["src"], ["a"], spec="echo A\n"), W.T("B", ["a"], ["b"], spec="echo B\n")])
 
 
-WORKFLOWS = {"fork": wf_fork, "chain": wf_chain, "diamond": wf_diamond, "pair": wf_pair}
+def wf_shortcut():
+    # X depends on B and C, B depends on C (a "shortcut" edge), and B sorts before C by name
+    return W.Workflow([W.T("C", ["src"], ["c"], spec="echo C\n"), W.T("B", ["c"], ["b"], spec="echo B\n"), W.T("X", ["b", "c"], ["x"], spec="echo X\n")])
+
+
+WORKFLOWS = {"shortcut": wf_shortcut, "fork": wf_fork, "chain": wf_chain, "diamond": wf_diamond, "pair": wf_pair}
 
 SUBMIT_EXE = {"slurm": "sbatch", "sge": "qsub", "lsf": "bsub"}
 
